@@ -165,6 +165,9 @@ BLOCK_TYPES = {
     2: "CalibrationDataBlock", 4: "Data2D", 5: "Data3D", 6: "OpticalSetupBlock", 7: "ForcePlatformsCalibrationDataBlock",
     9: "ForcePlatformsDataBlock", 11: "EMG", 12: "ForceTorque3D", 16: "TemporalEventsData",
 }
+# every type code the TDF jump table can carry (TDF_DATABLOCK_NOBLOCK = 0 .. TDF_DATABLOCK_EVENTS = 16): the entry decoder maps the
+# stored code through the BlockType enum, so a code without a member makes a file holding such a block unreadable as a whole
+ALL_TYPE_CODES = tuple(range(17))
 # format code -> member name per block type (only what the reference needs to choose alternatives)
 FORMATS = {
     "Data3D": {1: "byTrack", 2: "byTrackWithoutLinks", 3: "byFrame", 4: "byFrameWithoutLinks"},
